@@ -4,10 +4,11 @@ PROP = dict(
     title="Go-to-definition and hover agree with the compiler",
     lean_module="AbraProofs.Properties.C35",
     required_theorems=["C35_search_spec", "C35_findIdentifier_spec", "C35_search_sound", "C35_searchI_spec",
-                       "C35_findInnermost_spec", "C35_searchI_answers_iff", "C35_search_past_end", "C35_searchI_past_end"],
+                       "C35_findInnermost_spec", "C35_searchI_answers_iff", "C35_search_past_end", "C35_searchI_past_end",
+                       "C35_searchI_spec_unconditional", "C35_search_spec_checked", "C35_searchI_spec_checked"],
     harness_bin="c35",
     mismatch_is_violation=False,
-    rule="(quick) 160 / (thorough) 4000 seeded typed programs of one or two files (struct and enum definitions, three "
+    rule="(quick) 500 / (thorough) 6000 seeded typed programs of one or two files (struct and enum definitions, three "
          "functions per file visible to every body, top-level statements; let/var with and without annotation, tuple "
          "patterns, assignment, blocks, if/else, while, for, match on ints / tuples / enum variants as statement and as "
          "expression, lambdas with expression and block bodies, nested lambdas, calls of functions / lambdas / imported and "
@@ -15,7 +16,9 @@ PROP = dict(
          "tuple literals, indexing; every import form; variable names drawn from a pool of nine, one of which is also an "
          "imported function's name, so shadowing is the rule; non-ASCII string literals and comments once ranges are byte "
          "ranges (adaptive probe, D12), task blocks once the searches answer inside them (adaptive probe, D45)). Per file: "
-         "two model cases (identifier search, innermost-node search) covering EVERY byte offset 0..=len+2; spec checks at "
+         "two model cases (identifier search, innermost-node search) covering EVERY byte offset 0..=len+2, one case claiming "
+         "the hypotheses of the identifier-search theorem for the parsed file (decided by the proven-sound executable check "
+         "wfB in the model; the hover-search nesting check only once F6 is repaired, adaptive probe); spec checks at "
          "every byte offset: definition_at on a use = the generator's innermost visible declaration (file, range, text), "
          "definition_at outside identifiers = nothing, type_at on every typed position = the generator's type. "
          "distinct = distinct (file tree, search); non-trivial = the answer names at least one node",
@@ -42,7 +45,10 @@ PROP = dict(
     level_note="partial: that the resolution map holds the innermost visible declaration, that declaration_location returns the "
                "declaration's own span and the solved types are checked against the generator's independent scope stack and "
                "typing (spec_fail), not proved; the hypotheses Nested/CutOK/Unique of the identifier-search theorem are "
-               "properties of parser output and are not proved for it. A bare model mismatch is reported as "
+               "properties of parser output: they are not proved for the parser but decided for every file of every run by an "
+               "executable check whose soundness is a theorem (C35_search_spec_checked); the nesting hypothesis of the hover search "
+               "is false on parser output as long as F6 (function body block span starts at a token index) stands, which is why the "
+               "hover-search theorem is also proved without it (C35_searchI_spec_unconditional). A bare model mismatch is reported as "
                "no-failing-input-found (node ids are more than the property fixes); a wrong declaration or type is a concrete input.",
     technique="Lean 4 theorems (mutual structural induction over nested search trees) about a hand-written model + differential "
               "correspondence against the real LSP analysis at every byte offset + independent scope/type oracle in the generator",
